@@ -30,6 +30,31 @@ OPS = [
     (r'\(0, 0, 0, 0\)', '(0, 0, 0, 1)'), (r'\(0, 0, 0\)', '(0, 0, 1)'),
 ]
 
+OPS2 = [
+    (r'\bself\.lower\b', 'self.upper'), (r'\bself\.upper\b', 'self.lower'), (r'\bother\.lower\b', 'other.upper'), (r'\bother\.upper\b', 'other.lower'),
+    (r'\bself\.(lower|upper)\b', lambda m: 'other.' + m.group(1)), (r'\bother\.(lower|upper)\b', lambda m: 'self.' + m.group(1)),
+    (r'\bv1\b', 'v2'), (r'\bv2\b', 'v1'),
+    (r'\bmajor\b', 'minor'), (r'\bminor\b', 'patch'), (r'\bpatch\b', 'minor'), (r'\bminor\b', 'major'),
+    (r'\bpre_release\b', 'build'), (r'\bbuild\b', 'pre_release'),
+    (r'\bhigh_version\b', 'low_version'), (r'\blow_version\b', 'high_version'), (r'\bhigh_has_pre\b', 'low_has_pre'), (r'\blow_has_pre\b', 'high_has_pre'),
+    (r'\blefty\b', 'righty'), (r'\brighty\b', 'lefty'),
+    (r'\b0\b', '1'), (r'\b1\b', '0'), (r'\b1\b', '2'),
+    (r'Lower\(', 'Upper('), (r'Upper\(', 'Lower('),
+    (r'\.is_empty\(\)', '.len() == 1'), (r'\.is_some\(\)', '.is_none()'), (r'\.is_none\(\)', '.is_some()'),
+    (r'VersionDiff::(Major|Minor|Patch|PreMajor|PreMinor|PrePatch)\b', lambda m: 'VersionDiff::' + {'Major': 'Minor', 'Minor': 'Patch', 'Patch': 'Major', 'PreMajor': 'PreMinor', 'PreMinor': 'PrePatch', 'PrePatch': 'PreMajor'}[m.group(1)]),
+    (r'^(\s+)(return [^;]+;|[a-z_\.]+\([^;]*\);|[a-z_]+ (\+|-)?= [^;]+;)$', lambda m: m.group(1) + '/* deleted */'),
+    (r'\.clone\(\)\.predicate\(\)\.flip\(\)', '.clone().predicate()'),
+    (r'Some\(v\.clone\(\)\)', 'None'),
+    (r'\.then\(', '.and('),
+    (r'\.any\(', '.all('), (r'\.all\(', '.any('),
+    (r'\.filter_map\(', '.map(Some).filter_map(|x| x.and_then('),
+    (r'x == \'-\'', "x == '_'"), (r'is_ascii_alphanumeric\(\)', 'is_ascii_alphabetic()'),
+    (r'literal\("v"\)', 'literal("V")'), (r'literal\("V"\)', 'literal("v")'), (r'literal\("\|\|"\)', 'literal("|")'),
+    (r'literal\(">="\)', 'literal("=>")'), (r'literal\("<="\)', 'literal("=<")'), (r'literal\("~"\)', 'literal("^")'), (r'literal\("\^"\)', 'literal("~")'),
+    (r'literal\("x"\)', 'literal("y")'), (r'literal\("X"\)', 'literal("x")'), (r'literal\("\*"\)', 'literal("x")'), (r'literal\("\+"\)', 'literal("-")'), (r'literal\("\."\)', 'literal(",")'),
+    (r'1\.\.', '0..'), (r'0\.\.', '1..'),
+]
+
 def non_test_region(path, lines):
     end = len(lines)
     for i, l in enumerate(lines):
@@ -54,13 +79,13 @@ def gen(outdir):
             if in_hook and line.startswith('impl fmt::Display for Range'): in_hook = False
             if in_hook or s.startswith('//') or s.startswith('///') or s.startswith('#[') or s.startswith('use ') or 'error(' in s or 'diagnostic(' in s or s.startswith('*') or s.startswith('/*'):
                 continue
-            for pat, rep in OPS:
+            for pat, rep in (OPS2 if os.environ.get('MUT_BATCH') == '2' else OPS):
                 for m in re.finditer(pat, line):
                     # skip generics / lifetimes / arrows / closures params
                     ctx = line[max(0, m.start()-2):m.end()+2]
                     if '->' in ctx or '=>' in ctx or "<'" in ctx or 'PResult<' in line and pat in (r' < ', r' > '):
                         continue
-                    new = line[:m.start()] + rep + line[m.end():]
+                    new = line[:m.start()] + (rep(m) if callable(rep) else rep) + line[m.end():]
                     if new == line: continue
                     mutated = src[:i] + [new] + src[i+1:]
                     name = f'm{k:04d}'
@@ -69,7 +94,7 @@ def gen(outdir):
                     d = subprocess.run(['diff', '-u', '--label', 'a/' + path, '--label', 'b/' + path, a, b], capture_output=True, text=True).stdout
                     os.remove(a); os.remove(b)
                     open(os.path.join(outdir, name + '.diff'), 'w').write(d)
-                    index.append({'id': name, 'file': path, 'line': i + 1, 'from': line.strip(), 'to': new.strip(), 'op': f'{pat} -> {rep}'})
+                    index.append({'id': name, 'file': path, 'line': i + 1, 'from': line.strip(), 'to': new.strip(), 'op': f'{pat} -> {rep if not callable(rep) else "fn"}'})
                     k += 1
     json.dump(index, open(os.path.join(outdir, 'index.json'), 'w'), indent=0)
     print(len(index), 'mutants')
